@@ -181,6 +181,22 @@ def builtin_reuse_specs():
     return families.batch_specs(starts, (), families.inputs("a_-1\n", 3), "zero", "built-in-reuse")
 
 
+def range_merge_specs():
+    """Choices of two or three ranges over a small lattice of bounds: disjoint, touching, overlapping, one containing the other, equal,
+    reversed - what the merged character class must get right."""
+    pts = "aceg"
+    rngs = [("range", x, y) for x in pts for y in pts]            # includes reversed (empty) ranges
+    starts = []
+    for a in rngs:
+        for b in rngs:
+            starts.append(((), ("", ("alt", (a, b)))))
+    for a in rngs[::3]:
+        for b in rngs[1::3]:
+            for c in rngs[2::3]:
+                starts.append(((), ("", ("alt", (a, S("d"), b, c)))))
+    return families.batch_specs(starts, (), tuple("abcdefgh") + ("", "A", "`"), "zero", "range-merge")
+
+
 def build_specs(tier: str):
     b = BOUNDS[tier]
     env = gast.Env(HELPERS)
@@ -214,6 +230,7 @@ def build_specs(tier: str):
     wide.extend(families.metachar_specs("zero", tier))
     wide.extend(families.builtin_specs("zero", tier))
     wide.extend(builtin_reuse_specs())
+    wide.extend(range_merge_specs())
     names = []
     ins = families.inputs("ab1 #\t\n", 3) + families.inputs("ab1", 4)[40:]
     for entry in NAME_GRAMMARS:
@@ -270,7 +287,7 @@ def run(tier: str) -> int:
                 "(sc = _{ \"a\" | \"b\" }, ss = _{ n ~ \"b\" }) with all unary operators and ~ |, x trivia configuration x start modifier, plus grammars with a user rule named SKIP, tagged groups and built-ins; "
                 "optimizer configurations: the DEFAULT_OPTIMIZER object, the default pipeline, the pipeline applied twice, each of the 5 exported passes alone (these 8 also through generate()), "
                 "every sequence of passes of length 2 and 3 (150) and all 120 permutations of the five (interpreted). Each (chunk, configuration) runs in its own forked child, baseline first. "
-                "Oracle: same success/failure and same tree (incl. tags) as optimizer=None; construction must not raise. Non-trivial: the baseline returned at least one pair" + families.EXTRA_RULE_TEXT + families.SKIP_RULE_TEXT + families.META_RULE_TEXT + families.BUILTIN_RULE_TEXT + "; plus built-in reuse: a built-in whose body is a choice (ASCII_ALPHA, ASCII_ALPHANUMERIC, ASCII_HEX_DIGIT, NEWLINE) or a range used twice in one rule, in and next to choices with literals",
+                "Oracle: same success/failure and same tree (incl. tags) as optimizer=None; construction must not raise. Non-trivial: the baseline returned at least one pair" + families.EXTRA_RULE_TEXT + families.SKIP_RULE_TEXT + families.META_RULE_TEXT + families.BUILTIN_RULE_TEXT + "; plus built-in reuse: a built-in whose body is a choice (ASCII_ALPHA, ASCII_ALPHANUMERIC, ASCII_HEX_DIGIT, NEWLINE) or a range used twice in one rule, in and next to choices with literals; plus range-merge: every choice of two ranges (and a third of the triples, with a literal) over the bounds a, c, e, g, reversed ranges included",
         "samples": [{"grammar": s.text[:400], "start_rules": list(s.starts)[:5], "n_inputs": len(s.inputs), "family": s.family} for s in common.pick_samples(wide + deep, 3)] + [{"configurations_example": list(all_cfg)[:12]}],
         "exhaustive": True,
         "bounds": {"wide": [{"n": r[0], "trivia": list(r[1]), "mods": list(r[2]), "max_inputs": r[3], "configurations": len(main_cfg)} for r in b["wide"]],
